@@ -51,7 +51,7 @@ REQUIRED_CLASSES = {'valid-nontrivial': 1, 'rows==0': 1, 'rows>=2': 1, 'header-o
                     'corrupt:row-drop-col': 1, 'corrupt:row-add-col': 1, 'corrupt:header-rename': 1,
                     'corrupt:header-dup-replace': 1, 'corrupt:header-dup-insert': 1, 'corrupt:row-text': 1,
                     'corrupt:row-date': 1, 'corrupt:row-time': 1, 'corrupt:row-text-utim': 1, 'corrupt:last-row': 1,
-                    'corrupt:date:trailing-junk': 1, 'corrupt:time:hour-too-big': 1}
+                    'corrupt:date:trailing-junk': 1, 'corrupt:time:hour-too-big': 1, 'corrupt:row-utim-overlong': 1}
 EXAMPLE = 'example_data/DAT/data/example.dat'
 
 
